@@ -40,9 +40,11 @@ class SHADEDeme(AbstractDeme):
     def run_metaepoch(self, tree) -> None:
         epoch_counter = 0
         metaepoch_generations = []
+        population = self.current_population
         while epoch_counter < self._generations:
-            offspring = self._shade.run(self.current_population)
+            offspring = self._shade.run(population)
 
+            population = offspring
             epoch_counter += 1
             metaepoch_generations.append(offspring)
 
